@@ -266,6 +266,10 @@ def canon_expected(exp, bs):
     return {"bs": list(bs), "leaves": {pstr(k): canon_tensor(v) for k, v in exp.items()}}
 
 
+def _dtype_kind(d):
+    return "f" if d.startswith("float") or d.startswith("bfloat") else "b" if d == "bool" else "i"
+
+
 def diff_collection(got, want):
     """first difference between a canonical result and the canonical expectation (None if they agree)"""
     if got["bs"] != want["bs"]:
@@ -277,7 +281,7 @@ def diff_collection(got, want):
         g, w = got["leaves"][k], want["leaves"][k]
         if g[0] != w[0]:
             return f"leaf {k}: shape {g[0]} != {w[0]}"
-        if g[1] != w[1]:
+        if g[1] != w[1] and not (want.get("dtype_loose") and _dtype_kind(g[1]) == _dtype_kind(w[1])):
             return f"leaf {k}: dtype {g[1]} != {w[1]}"
         if not close_vals(g[2], w[2]):
             return f"leaf {k}: values {g[2][:8]} != {w[2][:8]}"
@@ -864,9 +868,18 @@ def core_usage(case, dens):
             return True
         if o["k"] == "t" and len(o["shape"]) == 0:
             return True
+        _, inplace, _ = bin_ref(case["op"], {})
+        wrapped = not inplace and case["op"] not in ("__and__", "__rand__")
+        kinds_ok = skind != "lazy"
+        if o["k"] == "t":
+            # a batch-shaped / broadcastable tensor is an operand kind the property names (out-of-place, non-lazy)
+            return wrapped and kinds_ok and bshape(case["self"]["bs"], o["shape"]) is not None
         if o["k"] == "td":
-            return (o.get("kind", "td") == skind and list(o["bs"]) == list(case["self"]["bs"])
-                    and keyrel(dens[0], dens[1]) == "same" and "default" not in case.get("kw", {}))
+            if o.get("kind", "td") != skind or keyrel(dens[0], dens[1]) != "same" or "default" in case.get("kw", {}):
+                return False
+            if list(o["bs"]) == list(case["self"]["bs"]):
+                return True
+            return wrapped and kinds_ok and bshape(case["self"]["bs"], o["bs"]) is not None
         return False
     if fam == "ternary":
         if case["op"] in ("where", "clamp"):
@@ -1055,6 +1068,15 @@ def canon_result(r):
     return {"kind": "other", "type": type(r).__name__}
 
 
+def loose_dtype(case):
+    """torch's result dtype for a 0-d tensor operand of another width depends on the *rank* of the other argument
+    (0-d operands do not take part in promotion within a category unless both are 0-d); the fused kernels and the
+    member-wise evaluation of lazy stacks see other ranks than the per-key reference, so only the dtype category
+    (bool / integer / float) is compared on such cases"""
+    dts = {e[2] for e in case["self"]["entries"]}
+    return any(o["k"] == "t" and len(o["shape"]) == 0 and (dts - {o.get("dtype", "float32")}) for o in case.get("args", []))
+
+
 def verdict(case, out, ref, sig, dens, inplace):
     fam = case["fam"]
     kind = ref[0]
@@ -1076,6 +1098,7 @@ def verdict(case, out, ref, sig, dens, inplace):
         want = ref[1]
         return verdict_reduce(got, want, sig)
     want = canon_expected(ref[1], ref[2])
+    want["dtype_loose"] = loose_dtype(case)
     if got.get("kind") not in ("td", "lazy", "tc"):
         return ("value", {"why": "result is not a tensor collection", "got": brief(got)}, dict(sig, check="value"))
     d = diff_collection(got, want)
@@ -1323,7 +1346,10 @@ def gen_ternary(rng, op=None, skind=None):
         return {"fam": "ternary", "op": op, "self": s, "args": [cond, o], "kw": kw}
     args = []
     roles = [1, 2]
-    pat = rng.choice(["tdtd", "tdtd", "tdtd", "tdpy", "pypy", "tt", "tdt", "pytd", "tpy"])
+    if op.startswith("lerp"):
+        pat = rng.choice(["tdtd", "tdtd", "tdtd", "tdpy", "tdpy", "tt", "tdt", "tpy", "pypy"])
+    else:       # torch.addcdiv / addcmul take tensors only
+        pat = rng.choice(["tdtd", "tdtd", "tdtd", "tdtd", "tt", "tdt", "tdpy"])
     if op == "clamp":
         pat = rng.choice(["tdtd", "tdtd", "pypy", "tt", "tdpy", "nonetd", "tdnone"])
     for i, tok in enumerate({"tdtd": ["td", "td"], "tdpy": ["td", "py"], "pypy": ["py", "py"], "tt": ["t", "t"],
@@ -1343,7 +1369,7 @@ def gen_ternary(rng, op=None, skind=None):
                  (rng.choice([4.0, 6.0]) if i == 0 else rng.choice([11.0, 15.0])) if op == "clamp" else
                  rng.choice([2.0, 3.0, 4.0])}
         elif tok == "t":
-            o = tensor_operand(rng, s["bs"], rng.choice(["t0", "tb", "tb", "tbc"]), "float32", roles[i], mode)
+            o = tensor_operand(rng, s["bs"], rng.choice(["t0", "tb", "tb", "tbc"]), s["entries"][0][2], roles[i], mode)
         else:
             o = {"k": "none"}
         args.append(o)
@@ -1755,6 +1781,7 @@ def compare_model(case, res, ev):
         # torch itself refuses the computation the plan asks for: the implementation must fail too
         return None if res["status"] == "raise" else (brief(res["got"]), "torch refuses the planned call: " + ev[1])
     want = ev[1]
+    want["dtype_loose"] = loose_dtype(case)
     if res["status"] == "raise":
         _, dself = build_td(dict(case["self"], kind="td", locked=False))
         if case["fam"] == "binary" and kernel_rejects(case, dself, build_operand(case["args"][0])[1]):
